@@ -213,4 +213,36 @@ def run(rep, tier):
                 callers.add(prog.outer_fn(h).path.rsplit("::", 1)[1])
         rep.ob("R05.5", "who-may-call|%s" % callee, bool(callers) and callers <= allowed,
                "%s may only be called from %s (found %s)" % (callee, sorted(allowed), sorted(callers)), anda.COLL)
+
+    # ------------------------------------------------------------------ R05.7 the saved-version watermark names what was written
+    rep.rule("R05.7", "the flush watermark last_saved_version is raised, behind the metadata PUT, to a value computed before that PUT (the version of the "
+             "snapshot that was serialized): a value read after it may count a set_extension / mutation that landed while the PUT was in flight as saved, "
+             "and the next flush then takes its no-change path", floor=1)
+    n57 = 0
+    for h in prog.fns.values():
+        if h.crate != "anda_db" or not prog.outer_fn(h).path.startswith(anda.COLL + "::"):
+            continue
+        raises = [e for e in h.calls_named(r"Atomic::<u64>::(fetch_max|store|swap|fetch_add)$") if "last_saved_version" in anda.recv_fields(h, e)]
+        if not raises:
+            continue
+        hname = prog.outer_fn(h).path.rsplit("::", 1)[1]
+        rep.saw(h, len(raises))
+        mputs = [e for e in h.calls_named(r"^anda_db::storage::Storage::(put|put_bytes)$") if "METADATA_PATH" in path_class(prog, h, e)]
+        for e in raises:
+            n57 += 1
+            before = [w for w in mputs if h.dominates(w.block, e.block) and w.block != e.block]
+            late = []
+            if before and len(e.args) > 1:
+                for o in h.slice_back_op(e.args[1]):
+                    ev = o[1] if len(o) > 1 else None
+                    if o[0] in ("call", "create") and ev is not None and getattr(ev, "fn", h) is h and any(
+                            h.dominates(w.block, ev.block) and ev.block != w.block for w in before):
+                        late.append(ev)
+            rep.ob("R05.7", "saved-watermark-is-the-written-snapshot|%s" % hname, bool(before) and not late,
+                   "%s raises last_saved_version to a value obtained after the metadata PUT returned (%s): a change that landed while the PUT was in flight is "
+                   "counted as saved although the written snapshot does not contain it - the next flush is a no-op and the change is lost on reopen" % (
+                       hname, ", ".join("%s line %d" % (x.name.rsplit("::", 1)[-1], x.line) for x in late[:3]) or "no metadata PUT precedes the raise"),
+                   e.where())
+    if n57 < 1:
+        raise CheckerFault("anchor missing: no raise of last_saved_version found")
     return rep.finish(EXPLAIN)
